@@ -540,7 +540,7 @@ def run(ctx):
 
 
 MANIFEST = dict(
-    text='Decides structural necessary conditions of library edits for all references and kinds: tagged-union discipline on every Reference member access in the edit/query functions; the rewrite table (arm -> match condition, stores, container update) of each of the four replace_cell overloads and of rename_cell equals the table derived from its signature (pointer match for the old kind, full strcmp on names otherwise, tag stored before the member when the kind changes, name reallocated and copied with 1+strlen(new_name)); every overload visits all cells x all references x all three reference kinds; top_level keeps exactly the cells the direct-dependency maps do not hold; dependency collectors guard recursion by pointer identity and always record the target; tag aggregators visit every tagged element kind and every path element; a deep library copy re-points references into the copy; every element cursor (pointer set to an array start) that a loop of cell.cpp/library.cpp dereferences moves in that loop. Equivalence with an abstract graph model over operation sequences is not decided.',
+    text='Decides structural necessary conditions of library edits for all references and kinds: tagged-union discipline on every Reference member access in the edit/query functions; the rewrite table (arm -> match condition, stores, container update) of each of the four replace_cell overloads and of rename_cell equals the table derived from its signature (pointer match for the old kind, full strcmp on names otherwise, tag stored before the member when the kind changes, name reallocated and copied with 1+strlen(new_name)); every overload visits all cells x all references x all three reference kinds; top_level keeps exactly the cells the direct-dependency maps do not hold; dependency collectors guard recursion by pointer identity and always record the target; tag aggregators visit every tagged element kind and every path element; a deep library copy re-points references into the copy; every element cursor (pointer set to an array start) that a loop of cell.cpp/library.cpp dereferences moves in that loop. Equivalence with an abstract graph model over operation sequences is not decided. Library::rename_cell (both overloads) is decided by interpretation on a three-cell library (R-MODEL.rename): exactly the by-name references equal in full to the old name are rewritten, the cell is renamed, by-pointer and raw references are never compared as strings, the copy fits the block.',
     note='Trusted: clang front end, gx, sa rules. The expected tables are computed from parameter types (kind(old), kind(new)), not frozen text; conditions are compared after cast normalisation. Readers\' by-name resolution at ENDLIB/END is deliberately not an instance.',
-    technique='tagged-union typestate over the AST (constraint intersection) + table extraction from switch arms compared with a signature-derived specification + explicit-state model of the name/tag hash tables by interpretation of their source (shared with C20)',
+    technique='tagged-union typestate over the AST (constraint intersection) + table extraction from switch arms compared with a signature-derived specification + explicit-state model of the name/tag hash tables by interpretation of their source (shared with C20) + interpretation of rename_cell on a small library (sa/minieval)',
     design='§4 C16')
